@@ -575,3 +575,113 @@ func truncatedView(v ssa.Value, self *ssa.Call) *ssa.Slice {
 	}
 	return rec(v, 0)
 }
+
+// C05.R10 — the restart clock only moves forward. IsCanaryDeploymentEnded measures the no-restart
+// window from the PodRestarting condition's LastUpdateTime (C05.R2). Necessary condition of "at
+// least noRestartsDuration has passed since the last canary pod restart": the replica-set side
+// writes that condition with a restart time T only under the fact T.After(L), L read from the
+// recorded condition's LastUpdateTime (so an older restart of another pod can never move the clock
+// back). The fact may hold directly at the write or through a boolean helper (alternatives with
+// environments).
+func c05RestartClockMonotonic(r *Run) {
+	r.RuleDoc("C05.R10", "the PodRestarting condition is written with restart time T only under T.After(recorded LastUpdateTime): the no-restart window is measured from the latest restart")
+	r.Floor("C05.R10", 1)
+	rec := r.Prog.Method(pkgERS, "Reconciler", "Reconcile")
+	if rec == nil {
+		r.Fatal("anchor (%s.Reconciler).Reconcile not found", pkgERS)
+		return
+	}
+	ctype, ok := r.Prog.constStr(pkgAPI, "ConditionTypePodRestarting")
+	if !ok {
+		r.Fatal("constant ConditionTypePodRestarting not found")
+		return
+	}
+	reach := r.Prog.reachableFuncs(rec)
+	for _, fn := range sortedFuncs(reach) {
+		if !r.Prog.IsRuleSite(fn) {
+			continue
+		}
+		for _, c := range callsIn(fn) {
+			call, isCall := c.(*ssa.Call)
+			if !isCall {
+				continue
+			}
+			cal := staticCallee(&call.Call)
+			if cal == nil || !r.Prog.IsRuleSite(cal) {
+				continue
+			}
+			// a condition writer call: some argument is the PodRestarting type constant and some
+			// argument is a metav1.Time
+			hasType := false
+			var ts ssa.Value
+			for _, a := range call.Call.Args {
+				if s, ok := constString(unwrap(a)); ok && s == ctype {
+					hasType = true
+				}
+				if typeName(a.Type()) == "k8s.io/apimachinery/pkg/apis/meta/v1.Time" && ts == nil {
+					ts = a
+				}
+			}
+			if !hasType || ts == nil {
+				continue
+			}
+			pos := r.Prog.Pos(instrPos(call))
+			// T: the time.Time wrapped by metav1.NewTime / a Time{Time: T} literal
+			var T ssa.Value
+			if nt, ok := unwrap(ts).(*ssa.Call); ok && calleeName(&nt.Call) == "k8s.io/apimachinery/pkg/apis/meta/v1.NewTime" && len(nt.Call.Args) == 1 {
+				T = nt.Call.Args[0]
+			}
+			if T == nil {
+				r.Undecided("C05.R10", "PodRestarting condition write", pos, shortFunc(fn), "the timestamp is not metav1.NewTime(T)")
+				continue
+			}
+			k := newKeyer(fn)
+			tkey := k.key(T)
+			var base []xfact
+			for _, f := range r.Prog.factsOf(fn).At(call.Block()) {
+				base = append(base, xfact{f, nil})
+			}
+			alts := expandAlt(r.Prog, base, 0)
+			good := len(alts) > 0
+			for _, alt := range alts {
+				found := false
+				for _, xf := range alt {
+					if !xf.Pol {
+						continue
+					}
+					ac, ok := xf.V.(*ssa.Call)
+					if !ok || len(ac.Call.Args) != 2 {
+						continue
+					}
+					var recv, arg ssa.Value
+					switch calleeName(&ac.Call) {
+					case "(time.Time).After":
+						recv, arg = ac.Call.Args[0], ac.Call.Args[1]
+					case "(time.Time).Before":
+						recv, arg = ac.Call.Args[1], ac.Call.Args[0]
+					default:
+						continue
+					}
+					rv, _ := stripConvE(recv, xf.env)
+					sameT := rv == T || newKeyer(fn).key(rv) == tkey
+					if rp, ok := rv.(ssa.Value); ok && !sameT && rp.Parent() == fn {
+						sameT = k.key(rp) == tkey
+					}
+					if !sameT {
+						continue
+					}
+					av, aenv := stripConvE(arg, xf.env)
+					_ = aenv
+					if r.Prog.dependsOnIP(av, func(x ssa.Value) bool { return hasPathSuffix(x, "LastUpdateTime", "Time") || hasPathSuffix(x, "LastUpdateTime") }) {
+						found = true
+					}
+				}
+				if !found {
+					good = false
+				}
+			}
+			r.Check("C05.R10", "PodRestarting condition write", pos, shortFunc(fn),
+				"written only under T.After(recorded LastUpdateTime)", good, "must-facts at the write: "+truncate(r.Prog.factsOf(fn).At(call.Block()).String(), 300))
+		}
+	}
+}
